@@ -169,6 +169,14 @@ def _scan_semantics(db, chk, mod, f, make_events, root_of, upto=None):
     where = mod.loc(f)
     if lp is None:
         return None
+    if not isinstance(lp.iter, ast.Name):
+        # the loop may walk the result of a helper of this module that hands back the sorted endpoints (`for e in self._sorted_events(df)`): the abstract runs then stand in for
+        # that result.  Any other iterable (rows zipped from columns, itertuples, ...) is NOT a sequence of endpoints: another algorithm, not understood
+        cal = lp.iter if isinstance(lp.iter, ast.Call) else None
+        nm = (cal.func.attr if isinstance(cal.func, ast.Attribute) and isinstance(cal.func.value, ast.Name) and cal.func.value.id in ("self", "cls") else H.name_id(cal.func)) if cal is not None else None
+        known_helper = nm is not None and any(q_ == nm or q_.endswith("." + nm) for q_ in mod.functions)
+        if not known_helper:
+            return None
 
     def find(block):
         for i, st in enumerate(block):
